@@ -157,6 +157,10 @@ pub fn run(ctx: &Ctx) -> Report {
         if e <= small_e {
             counts.extend(0..=(2 * (1u64 << e) + 1));
         }
+        if (7..=10).contains(&e) {
+            // several hundred draws (more than any batch a bounded-memory implementation might use)
+            counts.extend([255u64, 256, 257, 300, 513, 1030]);
+        }
         counts.sort();
         counts.dedup();
         for c in counts {
@@ -208,6 +212,32 @@ pub fn run(ctx: &Ctx) -> Report {
             (e, points_case(e, &idx), idx.len())
         })
         .collect();
+    // the same map called for domains of decreasing and of alternating size on ONE thread (a table kept between
+    // calls would be stale)
+    let seq_orders: Vec<(&str, Vec<u32>)> = vec![
+        ("descending", (1..=64u32).rev().collect()),
+        ("alternating", (1..=32u32).flat_map(|k| [65 - k, k]).collect()),
+    ];
+    let seq: Vec<(&str, Vec<(u32, String)>)> = seq_orders
+        .par_iter()
+        .map(|(name, order)| {
+            let mut bad = Vec::new();
+            for &e in order {
+                let idx = point_indices_upto(e, 6);
+                if let (_, Some(b)) = points_case(e, &idx) {
+                    bad.push((e, b));
+                }
+            }
+            (*name, bad)
+        })
+        .collect();
+    for (name, bad) in seq {
+        rep.evals(&format!("points-sequence:{}:{}", name, if bad.is_empty() { "ok" } else { "mismatch" }), 64);
+        rep.nontrivial_case(&format!("points-seq|{}", name));
+        for (e, b) in bad.into_iter().take(5) {
+            rep.violation(&format!("queries_to_points:history:{}", name), &format!("e={} in the {} sequence: {}", e, name, b), json!({"kind": "points-seq", "order": name, "e": e}));
+        }
+    }
     for (e, (class, bad), n) in pres {
         rep.evals(&format!("points:{}", class), n as u64);
         rep.nontrivial_case(&format!("points|{}", e));
@@ -267,6 +297,18 @@ pub fn replay(_ctx: &Ctx, case: &Value) -> super::ReplayResult {
             let e = case["e"].as_u64().ok_or("e")? as u32;
             let (class, bad) = points_case(e, &point_indices(e));
             Ok((bad.is_some(), format!("{} {}", class, bad.unwrap_or_default())))
+        }
+        Some("points-seq") => {
+            let name = case["order"].as_str().ok_or("order")?;
+            let target = case["e"].as_u64().ok_or("e")? as u32;
+            let order: Vec<u32> = if name == "descending" { (1..=64u32).rev().collect() } else { (1..=32u32).flat_map(|k| [65 - k, k]).collect() };
+            for e in order {
+                let (class, bad) = points_case(e, &point_indices_upto(e, 6));
+                if e == target {
+                    return Ok((bad.is_some(), format!("{} {}", class, bad.unwrap_or_default())));
+                }
+            }
+            Err("exponent not in the sequence".into())
         }
         _ => Err("unknown replay kind".into()),
     }
